@@ -13,7 +13,7 @@ Driver command of the C14 table-interpreting machine (kept fresh).
            `c <inst>;<inst>;…#<post>`       ONE public call of a mutator that has a row in `Generated/FreshTable.lean`:
                                             its segment instances in execution order, then the real state after the call
                                             (same format as init) from which every mutation copies the input it names.
-                                            inst = `row@seg@name=id,…@absent,…@gN,…` (owner expressions → ids; owner
+                                            inst = `row@seg@name=id,…@absent,…@gN,gM!,…` (owner expressions → ids; owner
                                             expressions that name no object; the tests that are false). Objects created
                                             by the call (ids ≥ next) are adopted with their inputs and an empty cache;
                                             tagged-block key lists (outside this machine) are taken from the real state.
@@ -30,7 +30,11 @@ def parseObjs (s : String) : Option (List (String × Id)) :=
     | [n, i] => i.toNat?.map fun i => (n, i)
     | _ => none
 
-def guardId (g : String) : String := (g.splitOn ":").headD g
+/-- `g7:test` -> `g7`, `g7:not(test)` -> `g7!` (the two branches of one `if`) -/
+def guardId (g : String) : String :=
+  match g.splitOn ":" with
+  | i :: rest => if (":".intercalate rest).startsWith "not(" then i ++ "!" else i
+  | [] => g
 
 def parseInst (new : State) (s : String) : Option SegInst :=
   match s.splitOn "@" with
